@@ -12,6 +12,7 @@ try:
     from pyparsing import (
         CharsNotIn,
         Group,
+        Keyword,
         OneOrMore,
         Optional,
         Suppress,
@@ -159,19 +160,21 @@ class BIFReader(object):
             + Suppress(")")
         )
         optional_expr = Suppress("(") + OneOrMore(word_expr2) + Suppress(")")
-        probab_attributes = optional_expr | Suppress("table") | Suppress("default")
+        probab_attributes = (
+            optional_expr | Suppress(Keyword("table")) | Suppress(Keyword("default"))
+        )
         cpd_expr = probab_attributes + OneOrMore(num_expr)
 
         return probability_expr, cpd_expr
 
     def variable_block(self):
-        start = re.finditer("variable", self.network)
+        start = re.finditer(r"\bvariable\s", self.network)
         for index in start:
             end = self.network.find("}\n", index.start())
             yield self.network[index.start() : end]
 
     def probability_block(self):
-        start = re.finditer("probability", self.network)
+        start = re.finditer(r"\bprobability\s*\(", self.network)
         for index in start:
             end = self.network.find("}\n", index.start())
             yield self.network[index.start() : end]
